@@ -117,6 +117,18 @@ class VariableBoundVisitor(ModelVisitor):
             b.update()
 #            print(b.toString())
             
+    def visit_composite_field(self, f):
+        if f.is_used_rand or f.parent is None:
+            super().visit_composite_field(f)
+        else:
+            # A member object that is not random in this call: its fields 
+            # are constants and its own constraints take no part in the solve
+            self.field_visited.append(f)
+            for fi in f.field_l:
+                if fi not in self.field_visited:
+                    fi.accept(self)
+            self.field_visited.remove(f)
+        
     def visit_constraint_block(self, c:ConstraintBlockModel):
         if c.enabled:
             super().visit_constraint_block(c)
